@@ -16,6 +16,7 @@ struct aws_stdio_ghost {
 	int open;		/* the stream is open */
 	int err;		/* error indicator */
 	size_t lines;		/* lines delivered so far */
+	size_t remaining;	/* KEYS_UNBOUNDED: lines the file still holds */
 	size_t fopen_calls, fgets_calls, fclose_calls;
 };
 extern struct aws_stdio_ghost g_aws_stdio;
